@@ -39,7 +39,7 @@ NoDup(c) == Cardinality(ToSet(c.nondust)) = Len(c.nondust) /\ Cardinality(ToSet(
 TraceInit ==
   /\ l = 1 /\ nodeOf = <<>> /\ saved = <<>> /\ everRAA = <<>> /\ projB = <<>>
   /\ fw = [adds |-> {}, downFul |-> {}, upClaimed |-> {}, settledNow |-> {}, base0 |-> <<>>, pol |-> <<>>,
-           shut |-> {}, closeFee |-> <<>>, newInfl |-> {}, crashed |-> {}, liveAtCrash |-> {}, snapKnows |-> <<>>, needSent |-> {}, owed |-> {}, settled |-> FALSE, pays |-> {}, claimedEv |-> {}, sentEv |-> {}, failEv |-> {}, lastMgr |-> <<>>, cuid |-> <<>>, failedNow |-> {}, ruid |-> <<>>]
+           shut |-> {}, closeFee |-> <<>>, newInfl |-> {}, crashed |-> {}, liveAtCrash |-> {}, snapKnows |-> <<>>, needSent |-> {}, owed |-> {}, settled |-> FALSE, pays |-> {}, claimedEv |-> {}, sentEv |-> {}, failEv |-> {}, lastMgr |-> <<>>, cuid |-> <<>>, failedNow |-> {}, ruid |-> <<>>, claimable |-> <<>>, mustClaim |-> {}]
   /\ par = <<>> /\ cnt = <<>> /\ hs = <<>> /\ fees = <<>> /\ feeBase = <<>> /\ base = <<>>
   /\ link = <<>> /\ redo = <<>> /\ lastCS = <<>> /\ order = <<>> /\ pts = <<>> /\ mon = <<>>
   /\ ownExp = <<>>
@@ -72,7 +72,7 @@ TOpen ==
         /\ saved' = <<>> /\ projB' = <<>>
         /\ fw' = [adds |-> {}, downFul |-> {}, upClaimed |-> {}, settledNow |-> {},
                    base0 |-> [e \in E |-> IF e[2] = 1 THEN cs[ch(e[1])].bal_a_msat ELSE cs[ch(e[1])].bal_b_msat],
-                   pol |-> R.policy, shut |-> {}, closeFee |-> [c \in C |-> 0], newInfl |-> {}, crashed |-> {}, liveAtCrash |-> {}, snapKnows |-> <<>>, needSent |-> {}, owed |-> {}, settled |-> FALSE, pays |-> {}, claimedEv |-> {}, sentEv |-> {}, failEv |-> {}, lastMgr |-> <<>>, cuid |-> <<>>, failedNow |-> {}, ruid |-> <<>>]
+                   pol |-> R.policy, shut |-> {}, closeFee |-> [c \in C |-> 0], newInfl |-> {}, crashed |-> {}, liveAtCrash |-> {}, snapKnows |-> <<>>, needSent |-> {}, owed |-> {}, settled |-> FALSE, pays |-> {}, claimedEv |-> {}, sentEv |-> {}, failEv |-> {}, lastMgr |-> <<>>, cuid |-> <<>>, failedNow |-> {}, ruid |-> <<>>, claimable |-> <<>>, mustClaim |-> {}]
 
 \* not part of the commitment protocol; `warning` / `disconnect_peer` ask the transport to drop the
 \* peer (the harness then disconnects, as PeerManager would) -- an `error` is never acceptable
@@ -121,6 +121,7 @@ TMsg ==
            Closed(ue) \/ G9(<<ue, R.hash>> \in DOMAIN fw.cuid /\ Durable(ue, fw.cuid[<<ue, R.hash>>]))
   /\ (R.chan # 0 /\ R.kind \in {"update_fail_htlc", "update_fail_malformed_htlc"} /\ ~Closed(EP(R.chan, R.from)))
         => /\ G2(MayFailUp(R.from, EP(R.chan, R.from), R.id))
+           /\ Has(EP(R.chan, R.from), "in", R.id) => G12(<<R.from, Get(EP(R.chan, R.from), "in", R.id).hash>> \notin fw.mustClaim)
            \* C09: the failure of a forwarded HTLC is passed upstream only after the update of the downstream
            \* revocation that made its removal irrevocable is durable
            /\ Has(EP(R.chan, R.from), "in", R.id) /\ Get(EP(R.chan, R.from), "in", R.id).rem = -1 =>
@@ -131,7 +132,9 @@ TMsg ==
                    \/ G9(<<de, h>> \in DOMAIN fw.ruid /\ Durable(de, fw.ruid[<<de, h>>]))
   /\ LET k == R.kind  e == EP(R.chan, R.from) IN
      IF R.chan = 0 THEN UNCHANGED cvars ELSE
-     IF Closed(e) THEN G10(k \in Harmless) /\ UNCHANGED cvars ELSE    \* a closed channel is never resumed
+     \* a closed channel is never resumed; in particular no revocation secret is released any more: the
+     \* commitment it would revoke is the one this side has broadcast (or may broadcast) -- C05
+     IF Closed(e) THEN (IF k = "revoke_and_ack" THEN G5(FALSE) ELSE G10(k \in Harmless)) /\ UNCHANGED cvars ELSE
      CASE k = "update_add_htlc" -> SendAdd(e, R.id, R.amt, R.hash)
        [] k = "update_fulfill_htlc" -> SendRemove(e, R.id, "fulfill") /\ MayReleaseFulfil(e, R.hash)
        [] k \in {"update_fail_htlc", "update_fail_malformed_htlc"} -> SendRemove(e, R.id, "fail")
@@ -258,10 +261,17 @@ MonIds == [e \in EPsOf(R.node) |->
              LET ks == {k \in 1..Len(R.mons) : R.mons[k].chan = e[1]} IN
              IF ks = {} THEN 0 ELSE R.mons[CHOOSE k \in ks : TRUE].id]
 PeersOf(n) == {Peer(e) : e \in EPsOf(n)}
+\* the update carrying the latest commitment_signed this endpoint accepted has reached its monitor (while the user
+\* refuses events, updates may wait in the manager behind a blocked one: the monitor has not seen those)
+HolderKnown(e) == LET n == cnt[e].recvCS IN n \in DOMAIN mon[e].holder /\ mon[e].holder[n] <= MonIds[e]
 TCrash ==
   /\ IsEvent("crash")
   /\ UNCHANGED <<nodeOf, saved, everRAA, projB>>
   /\ fw' = [fw EXCEPT !.crashed = @ \cup {R.node},
+                       \* (what the user was shown survives a clean reload; an older manager may not know it)
+                       !.claimable = IF R.reload THEN [x \in DOMAIN @ |-> IF x[1] = R.node THEN [@[x] EXCEPT !.reloaded = TRUE] ELSE @[x]]
+                                     ELSE [x \in {y \in DOMAIN @ : y[1] # R.node} |-> @[x]],
+                       !.mustClaim = IF R.reload THEN @ ELSE {p \in @ : p[1] # R.node},
                        !.lastMgr = [n \in DOMAIN @ \cup {R.node} |-> IF n = R.node THEN R.mgr ELSE @[n]],
                        \* (a terminal event the user handled before the restart stays handled, whatever manager is
                        \* restored: the library then no longer owes it -- its completion action told the monitor)
@@ -274,13 +284,13 @@ TCrash ==
                           \* (the monitor knows a claim once the peer's signature for the removal was accepted: rem >= 1;
                           \* an update_fulfill_htlc alone is in no durable state)
                           {<<R.node, x.hash>> : x \in UNION {{y \in hs[e] : y.dir = "out" /\ MonIds[e] >= mon[e].last
-                                                                      /\ (y.res = "fulfill" => y.rem >= 1)} : e \in {z \in EPsOf(R.node) : ~Closed(z)}}},
+                                                                      /\ (y.res = "fulfill" => y.rem >= 1 /\ HolderKnown(e))} : e \in {z \in EPsOf(R.node) : ~Closed(z)}}},
                        \* claims the durable monitor knows (peer's signature for the removal was accepted, so the
                        \* holder-commitment update recorded the claim) but the restored manager does not: the
                        \* restarted node must report them as sent again (own payments)
                        !.needSent = {p \in @ : p[1] # R.node} \cup
                           {<<R.node, x.hash>> : x \in UNION {{y \in hs[e] : y.dir = "out" /\ y.res = "fulfill" /\ y.rem >= 1
-                                                                     /\ MonIds[e] >= mon[e].last /\ UpAdds(R.node, y.hash) = {}
+                                                                     /\ MonIds[e] >= mon[e].last /\ HolderKnown(e) /\ UpAdds(R.node, y.hash) = {}
                                                                      /\ y.hash \notin (IF <<R.node, R.mgr>> \in DOMAIN fw.snapKnows THEN fw.snapKnows[<<R.node, R.mgr>>] ELSE {})}
                                                               : e \in {z \in EPsOf(R.node) : ~Closed(z)}}}]
   /\ IF <<R.node, R.mgr>> \in DOMAIN saved
@@ -326,6 +336,7 @@ TForceClose == /\ IsEvent("force_close") /\ UNCHANGED Aux
 \* every broadcast transaction has been mined and every timelock of the run has expired
 TSettled == /\ IsEvent("settled") /\ UNCHANGED <<cvars, nodeOf, saved, everRAA, projB>>
             /\ fw' = [fw EXCEPT !.settled = TRUE]
+HasEv(S, n, h) == \E p \in S : p[1] = n /\ p[2] = h
 TEventRefused ==
   /\ IsEvent("event_refused") /\ UNCHANGED <<cvars, nodeOf, saved, everRAA, projB>>
   /\ fw' = IF R.kind \in PersistentEvents THEN [fw EXCEPT !.owed = @ \cup {<<R.node, R.kind, R.hash, R.snap>>}] ELSE fw
@@ -335,8 +346,12 @@ TEvent ==
             THEN [fw EXCEPT !.needSent = IF R.kind = "PaymentSent" THEN @ \ {<<R.node, R.hash>>} ELSE @,
                             !.owed = {o \in @ : ~(o[1] = R.node /\ o[2] = R.kind /\ o[3] = R.hash)},
                             !.sentEv = IF R.kind = "PaymentSent" THEN @ \cup {<<R.node, R.hash, R.snap>>} ELSE @,
-                            !.failEv = IF R.kind = "PaymentFailed" THEN @ \cup {<<R.node, R.hash, R.snap>>} ELSE @]
-            ELSE IF R.kind = "PaymentClaimed" THEN [fw EXCEPT !.claimedEv = @ \cup {R.hash}]
+                            !.failEv = IF R.kind = "PaymentFailed" THEN @ \cup {<<R.node, R.hash, R.snap>>} ELSE @,
+                            !.claimable = IF R.kind = "PaymentClaimable"
+                                          THEN [x \in DOMAIN @ \cup {<<R.node, R.hash>>} |->
+                                                  IF x = <<R.node, R.hash>> THEN [deadline |-> R.deadline, reloaded |-> FALSE] ELSE @[x]]
+                                          ELSE @]
+            ELSE IF R.kind = "PaymentClaimed" THEN [fw EXCEPT !.claimedEv = @ \cup {R.hash}, !.mustClaim = @ \ {<<R.node, R.hash>>}]
             ELSE fw
   /\ IF CoopClose /\ ~Closed(EP(R.chan, R.node))
      THEN \* a cooperative close needs a shutdown exchange and no pending HTLC
@@ -351,27 +366,44 @@ TEvent ==
   \* exception (PaymentFailed after a *completed* PaymentSent, to be ignored by the user): so after a
   \* crash only payments whose HTLC was still held by the (complete) monitor at the crash are judged --
   \* the monitor knows the claim and the restarted node must resolve them as sent (C10 / C03).
+  \* That exception presupposes a PaymentSent the user HAS handled: one it refused (ReplayEvent) is still owed,
+  \* its completion action has not run, so the monitor still holds the claim.
   /\ R.kind = "PaymentFailed" =>
         G10(<<R.node, R.hash>> \in fw.downFul =>
-              (R.node \in fw.crashed /\ <<R.node, R.hash>> \notin fw.liveAtCrash))
+              (R.node \in fw.crashed /\ <<R.node, R.hash>> \notin fw.liveAtCrash /\ HasEv(fw.sentEv, R.node, R.hash)))
 
 TProj ==
   /\ IsEvent("proj")
   /\ UNCHANGED <<cvars, nodeOf, saved, everRAA, fw>>
   /\ projB' = [n \in DOMAIN projB \cup {<<R.node, R.chan>>} |-> IF n = <<R.node, R.chan>> THEN R ELSE projB[n]]
   \* at the end of a wound-down run nothing is left pending on an open channel
-  \* (an HTLC whose other leg is on a channel that was force-closed waits for the chain, which is not part of these runs)
+  \* (an HTLC whose other leg was still pending on a channel when that channel was force-closed waits for the chain,
+  \*  which is not part of these runs; one whose other leg had been removed irrevocably before has no such excuse)
   \* (after a crash in the run this is C10's "every HTLC that was pending still resolves", otherwise C01's)
   /\ (R.final /\ ~Closed(EP(R.chan, R.node))) =>
-        /\ GF(\A x \in hs[EP(R.chan, R.node)] : ~fw.settled /\ \E a \in fw.adds : a.hash = x.hash /\ Closed(EP(a.chan, a.node)))
+        /\ GF(\A x \in hs[EP(R.chan, R.node)] : ~fw.settled /\ \E a \in fw.adds : a.hash = x.hash /\ Closed(EP(a.chan, a.node))
+                                                                  /\ \E y \in hs[EP(a.chan, a.node)] : y.hash = x.hash)
         /\ GF(R.n_in + R.n_out = Cardinality(hs[EP(R.chan, R.node)]))
   \* the projection after a reload equals the one taken before it
   /\ (R.after_reload /\ <<R.node, R.chan>> \in DOMAIN projB) =>
         LET b == projB[<<R.node, R.chan>>] IN
         G12(b.out_cap = R.out_cap /\ b.in_cap = R.in_cap /\ b.n_in = R.n_in /\ b.n_out = R.n_out /\ b.ready = R.ready)
 
+\* ---- the user claims / gives up a payment it was shown.  A node re-read from what it wrote reacts to the call like
+\* the original (C12): a payment shown as claimable before a clean reload, and claimed below its advertised
+\* deadline after it, is claimed -- its HTLC is not failed back.  (Whether the original itself would have claimed
+\* is the inbound-payment property's business; here only the reload is judged.)
+TClaimOp ==
+  /\ l <= Len(Rec) /\ Rec[l].ev \in {"claim", "fail"} /\ l' = l + 1
+  /\ UNCHANGED <<cvars, nodeOf, saved, everRAA, projB>>
+  /\ LET r == Rec[l]  k == <<r.node, r.hash>> IN
+     fw' = IF k \notin DOMAIN fw.claimable THEN fw
+           ELSE IF r.ev = "claim" /\ fw.claimable[k].reloaded /\ r.height < fw.claimable[k].deadline
+                THEN [fw EXCEPT !.mustClaim = @ \cup {k}]
+                ELSE [fw EXCEPT !.claimable = [x \in DOMAIN @ \ {k} |-> @[x]]]
+
 TOther ==
-  /\ l <= Len(Rec) /\ Rec[l].ev \in {"forward", "claim", "fail", "fee", "tick", "block", "persist_mode", "restarted", "close", "open_extra", "pause_flush", "flush", "hold_events", "settle_chain", "mine_skipped", "sweeper_track_failed"}
+  /\ l <= Len(Rec) /\ Rec[l].ev \in {"forward", "intercept_fwd", "intercept_fail", "fee", "tick", "block", "persist_mode", "restarted", "close", "open_extra", "pause_flush", "flush", "hold_events", "settle_chain", "mine_skipped", "sweeper_track_failed"}
   /\ l' = l + 1 /\ Stutter
 
 \* ---- a channel opened while the run is in progress (C09: nothing that depends on the initial
@@ -399,7 +431,6 @@ TScorer == IsEvent("rt_scorer") /\ Stutter
 TSweeper == IsEvent("rt_sweeper") /\ Stutter /\ G12(R.read_ok /\ R.equal)
 
 \* ---- end of a wound-down run, per node (also for nodes all of whose channels are closed)
-HasEv(S, n, h) == \E p \in S : p[1] = n /\ p[2] = h
 TFin ==
   /\ IsEvent("fin") /\ Stutter
   \* C10: every claim the durable monitor knew at a crash was reported again as PaymentSent
@@ -432,7 +463,7 @@ TFin ==
                                     {a \in fw.adds : a.node = n /\ a.dir = "in"})
                IN gotIn >= paidOut)
 
-TraceNext == TSweeper \/ TForceClose \/ TSettled \/ TEventRefused \/ TFin \/ TScorer \/ TExtra \/ TOpen \/ TMsg \/ TDeliver \/ TPersist \/ TComplete \/ TSend \/ TDisconnect \/ TReconnect
+TraceNext == TClaimOp \/ TSweeper \/ TForceClose \/ TSettled \/ TEventRefused \/ TFin \/ TScorer \/ TExtra \/ TOpen \/ TMsg \/ TDeliver \/ TPersist \/ TComplete \/ TSend \/ TDisconnect \/ TReconnect
              \/ TEvent \/ TOther \/ TMgrSnap \/ TCrash \/ TBroadcast \/ TProj
 
 TraceSpec == TraceInit /\ [][TraceNext]_tvars
